@@ -175,6 +175,11 @@ def load_known(prop: str) -> dict[str, dict]:
 
 def finish(prop: str, tier: str, seed: int, level: str, rule: str, merged: dict, t0: float, assumptions: list[str], min_nontrivial: int = 2, deciding: list[str] | None = None) -> int:
     """Write evidence, print verdict lines, return exit code (0 held / 1 violated / 2 inconclusive)."""
+    global EVIDENCE_DIR, REPLAY_DIR
+    if os.environ.get("HGMON_NO_EVIDENCE"):
+        # self-test runs against scratch copies must not touch the committed evidence
+        EVIDENCE_DIR = os.path.join(VERIF, ".work", f"selftest-{os.getpid()}", "evidence")
+        REPLAY_DIR = os.path.join(VERIF, ".work", f"selftest-{os.getpid()}", "replays")
     os.makedirs(EVIDENCE_DIR, exist_ok=True)
     known = load_known(prop)
     for key in sorted(known):
